@@ -468,6 +468,45 @@ async def s_group_cancel() -> List[str]:
     if len(ids) != 2:
         pr.viol.append(f"group C reports ids {ids}")
     pr.check_restored("end", 1)
+    # generated group names stay unique and fresh after groups with lower / middle / higher indices were cancelled (C10)
+    for victim in (0, 1, 2, None):
+        p2 = TaskPool()
+
+        async def idle(x):
+            await asyncio.sleep(3600)
+
+        try:
+            names = [p2.map(idle, [1]) for _ in range(3)]
+            await ticks(2)
+            if victim is not None:
+                p2.cancel_group(names[victim])
+            else:
+                p2.cancel_group(names[0])
+                p2.cancel_group(names[2])
+            live = [n for k, n in enumerate(names) if (k != victim if victim is not None else k == 1)]
+            more = []
+            for _ in range(3):
+                more.append(p2.map(idle, [2]))
+                await ticks(1)
+            allnames = live + more
+            if len(set(allnames)) != len(allnames):
+                pr.viol.append(f"generated group names collide after cancelling index {victim}: live {live}, new {more}")
+            for n in more:
+                got = p2.get_group_ids(n)
+                if len(got) != 1:
+                    pr.viol.append(f"after cancelling index {victim}: new group {n} reports ids {sorted(got)} for its one element")
+            for n in live:
+                if len(p2.get_group_ids(n)) != 1:
+                    pr.viol.append(f"after cancelling index {victim}: the untouched group {n} reports ids {sorted(p2.get_group_ids(n))}")
+            explicit = f"map-idle-group-{len(names) + len(more)}"
+            p2.map(idle, [3], group_name=explicit)
+            nxt = p2.map(idle, [4])
+            if nxt == explicit or nxt in allnames:
+                pr.viol.append(f"a generated name collides with a live group: {nxt}")
+        except Exception as e:
+            pr.viol.append(f"unnamed requests after cancelling group index {victim} failed: {type(e).__name__}: {e}")
+        p2.cancel_all()
+        await ticks(2)
     return pr.viol
 
 
